@@ -259,6 +259,24 @@ def emit : Handler := fun req => do
   -- the emitted type graph with its wrapper chains; only edges between emitted items count
   let egraph : EGraph := defs.map fun d => (((d.getObjValAs? String "name").toOption.getD "").toList,
     (defEdges d).filter fun e => typeDefs.contains (String.ofList e.target))
+  -- what each schema-derived holder refers to BY NAME and what it holds as a structural COPY of a component
+  let schemasJ0 := match inp.getObjVal? "schemas" with | .ok (.obj m) => m.toList | _ => []
+  let rustName0 (k : String) : String := String.ofList (Oas3.Naming.toRustTypeName Oas3.Gen.prelude Oas3.Client.idTr k.toList)
+  let rustToSchema : List (String × String) := schemasJ0.map fun (k, _) => (rustName0 k, k)
+  let compTexts : List (String × String) := schemasJ0.map fun (k, v) => (k, v.compress)
+  let fps0 := unionFps (schemasJ0.map fun (k, v) => (k.toList, sOf v))
+  let ownSelf (dn : String) : Option (List GName × List GName) := (rustToSchema.lookup dn).bind fun k =>
+    (schemasJ0.lookup k).map fun v => refsAndCopies fps0 compTexts true v
+  let ownOf (dn : String) : Option (List GName × List GName) := (rustToSchema.lookup dn).map fun k =>
+    (withParents schemasJ0 k).foldl (fun acc n => match schemasJ0.lookup n with
+      | some v => let r := refsAndCopies fps0 compTexts true v; (acc.1 ++ r.1, acc.2 ++ r.2)
+      | none => acc) ([], [])
+  /- F10-4: an edge that exists only because an inline sub-schema is a structural copy of component `T` (typed `T`
+  through the schema-identity cache, never boxed, and not a dependency edge) -/
+  let copyOnly (dn : String) (t : GName) : Bool := match ownOf dn, rustToSchema.lookup (String.ofList t) with
+    | some (rs, cs), some k => cs.contains k.toList && !rs.contains k.toList
+    | _, _ => false
+  let egraphNoCopy : EGraph := egraph.map fun (n, es) => (n, es.filter fun e => !copyOnly (String.ofList n) e.target)
   let hasIndirection := emittedCycleHasIndirection egraph
   let sizeCycNames := dedup (sizeCycles egraph)
   let sizeCyc := valueDeps.filter fun p => cyclic valueDeps p.1 == some true || sizeCycNames.contains p.1
@@ -315,7 +333,10 @@ def emit : Handler := fun req => do
         else if typeDefs.any (fun d => d != u && d.toLower == u.toLower) then "KnownTypeNameCaseMismatch" else ""
       verdict false (if classes.contains "" then [] else classes.eraseDups) s!"mentioned but not defined: {undefinedNames}"
     else if !dupTypes.isEmpty then verdict false [] s!"defined more than once: {dupTypes}"
-    else if !sizeCyc.isEmpty then verdict false [] s!"by-value containment cycle (infinite size): {sizeCyc.map (fun p => String.ofList p.1)}"
+    else if !sizeCyc.isEmpty then
+      -- attributed to the copy route only when every by-value cycle passes through such an edge
+      let cls := if egraphNoCopy != egraph && emittedCycleHasIndirection egraphNoCopy && (sizeCycles egraphNoCopy).isEmpty then ["KnownCopyByValueCycle"] else []
+      verdict false cls s!"by-value containment cycle (infinite size): {sizeCyc.map (fun p => String.ofList p.1)}"
     else if certDisagrees then verdict false [] "the rank certificate and the cycle test on the emitted by-value graph disagree"
     else if !defCyc.isEmpty then
       -- attribute only when EVERY type on a Default cycle is explained by the spec-level edges of its schema
@@ -353,7 +374,6 @@ def emit : Handler := fun req => do
   -- model of the boxing rule: for every emitted reference BY NAME to a component schema's type, whether it carries a Box
   let schemaS : List (GName × S) := schemasJ.map fun (k, v) => (k.toList, sOf v)
   let sdeps := depsOf schemaS
-  let rustToSchema : List (String × String) := schemasJ.map fun (k, _) => (rustNameOf k, k)
   let discBases : List String := schemasJ.filterMap fun (k, v) => if (v.getObjVal? "discriminator").toOption.isSome then some (rustNameOf k) else none
   -- the types an operation brings (request structs, response enums) hold their payloads as declared
   let opPrefixes : List String := match (fieldD inp "spec" Json.null).getObjVal? "paths" with
@@ -364,17 +384,13 @@ def emit : Handler := fun req => do
   -- a schema that is a discriminated base AND a oneOf/anyOf union at once is outside the rule's grammar (C14)
   let mixedUnion : List String := schemasJ.filterMap fun (k, v) =>
     if (v.getObjVal? "discriminator").toOption.isSome && ((v.getObjVal? "oneOf").toOption.isSome || (v.getObjVal? "anyOf").toOption.isSome) then some (rustNameOf k) else none
-  let compTexts : List (String × String) := schemasJ.map fun (k, v) => (k, v.compress)
   let boxRows (useModel : Bool) : List Json := (defs.filter fun d =>
       let dn := (d.getObjValAs? String "name").toOption.getD ""
       !(opPrefixes.any fun p => dn.startsWith p) && !mixedUnion.contains dn).flatMap fun d =>
     let dn := (d.getObjValAs? String "name").toOption.getD ""
     -- `$ref`s written in the holder's own schema; a target that is reached only as a structural COPY of a component
     -- (schema-identity cache, `get_type_ref`) is named without consulting the boxing rule
-    let own : Option (List GName × List GName) := (rustToSchema.lookup dn).map fun k =>
-      (withParents schemasJ k).foldl (fun acc n => match schemasJ.lookup n with
-        | some v => let r := refsAndCopies (unionFps schemaS) compTexts true v; (acc.1 ++ r.1, acc.2 ++ r.2)
-        | none => acc) ([], [])
+    let own := ownOf dn
     -- an enum with payloads that is not `#[serde(untagged)]` dispatches on a tag: a discriminated base (also one
     -- that inherits its discriminator through allOf)
     let isDiscEnum := (d.getObjValAs? String "kind").toOption == some "enum" && (discBases.contains dn || fieldD d "untagged" (Json.bool true) == Json.bool false)
@@ -384,7 +400,10 @@ def emit : Handler := fun req => do
         let byCopy := match own with | some (_, cs) => cs.contains k.toList && !isDiscEnum | none => false
         let byName := match own with | some (rs, _) => rs.contains k.toList | none => true
         -- both a copy and a `$ref` of the same component in one holder: the two members cannot be told apart by name
-        if byCopy && byName then none else
+        -- a copy INHERITED from an allOf parent is re-read from the merged schema, which need not be identical to the
+        -- component any more: the rule does not say which way it goes
+        let inheritedCopy := byCopy && (match ownSelf dn with | some (_, cs) => !cs.contains k.toList | none => false)
+        if (byCopy && byName) || inheritedCopy then none else
         let b : Json := if useModel then (if byCopy then Json.bool false else match expectBoxedAt sdeps isDiscEnum e.via k.toList with | some b => Json.bool b | none => Json.null) else Json.bool (e.via.contains Via.box)
         some (Json.arr #[Json.str dn, str e.target, b])
       | none => none
